@@ -803,13 +803,13 @@ def run(ctx):
         rest, n2 = _walk_cases(_gen(ctx, "cases", 3, 2, ["filtered", "modsince", "crsince", "infolder"], "rest"),
                                faults, 20000, rng, "r")
     else:
-        walk, n1 = _walk_cases(_gen(ctx, "cases", 3, 2, ["all"], "all"), faults, 4000, rng, "a")
+        walk, n1 = _walk_cases(_gen(ctx, "cases", 3, 2, ["all"], "all"), faults, 3000, rng, "a")
         rest, n2 = _walk_cases(_gen(ctx, "cases", 2, 2, ["filtered", "modsince", "crsince", "infolder"], "rest"),
-                               faults, 4000, rng, "r")
+                               faults, 3000, rng, "r")
     n_enum = n1 + n2
     cases = walk + rest
     exhaustive = len(cases) == n_enum
-    big = _random_cases(ctx.seed, 400 if thorough else 120)
+    big = _random_cases(ctx.seed, 400 if thorough else 100)
     repo = _repo_test_cases()
     ctx.log(f"TLC enumerated {n_enum} walk cases (replaying {len(cases)}), {len(fcases)} filter cases; "
             f"+{len(big)} random larger libraries, +{len(repo)} repo-test scenarios")
@@ -857,10 +857,9 @@ def run(ctx):
             key = ("match",)
         else:
             f = t["hdr"]["fault"]
-            reqs = [e for e in t["ev"] if e["a"] == "Req"]
             hitk = next((t["ev"][k - 1]["k"] for k, e in enumerate(t["ev"]) if e.get("inj") and k and t["ev"][k - 1]["a"] == "Req"), "-")
             outs = tuple((e["a"], e.get("_pycls", ""), e.get("status", 0)) for e in t["ev"] if e["a"] in ("Raise", "Return"))
-            key = (t["id"].split(":")[0].rstrip("0123456789"), t["hdr"]["job"]["call"], f["kind"], f["code"], hitk, outs)
+            key = (re.match(r"[a-z\-]*", t["id"]).group(0), t["hdr"]["job"]["call"], f["kind"], f["code"], hitk, outs)
         groups.setdefault(key, []).append(i)
     reps = [ix[0] for _, ix in sorted(groups.items(), key=lambda kv: (-len(kv[1]), repr(kv[0])))]
     detail = reps[:24]
@@ -874,7 +873,7 @@ def run(ctx):
         i = ix[0]
         t = everything[i]
         rs, rl = reach.get(i, (None, None))
-        if i in reach and rs == 0 and rl == 0:
+        if i in reach and rs == 0 and rl == 0 and key != ("match",):        # even the Call event was refused
             raise MachineryError(f"trace header rejected by GraphTrace!TraceInit (harness bug): {t['id']} {json.dumps(t['hdr'])[:400]}")
         more = f" [{len(ix)} cases with this signature, e.g. {', '.join(everything[j]['id'] for j in ix[:4])}]"
         if key == ("match",):
